@@ -91,6 +91,11 @@ def forged_signature(obj, auto=True, args=(), kwargs={}):
     if forger is not None:
         ret = forger(obj=subject)
         if ret is not None:
+            if not isinstance(ret, _util.funcsigs.Signature):
+                # objects that make up any attribute asked of them
+                raise TypeError(
+                    'unexpected object {0!r} returned by the signature '
+                    'forger of {1!r}'.format(ret, obj))
             return _signatures.UpgradedSignature._upgrade_with_warning(ret)
     if auto:
         try:
